@@ -438,6 +438,34 @@ def part_collide(ctx, shard):
                         ctx.violation(f"C14|collide|after={then}|prefixable={int(prefixable)}|mode=prefixed-table-symbol-changed", {"part": "collide", "symbol": S, "table_symbol": "k" + t, "then": then, "prefixable": prefixable}, 1000.0 * exp[0], g2[1])
 
 
+DOUBLE_BASES = ["m", "g", "s", "eV", "Hz", "pc", "K", "J", "W", "N", "Pa", "yr", "G", "V"]
+
+
+def part_double(ctx, shard):
+    """prefix + (prefix + prefixable symbol): a prefixed unit is not itself prefixable, so the string has a reading only
+    if the table / alias list / single-prefix rule gives it one (dam, mmHg ...); asked cold and after the inner unit
+    has been resolved (the table row written back for km must not make km prefixable)."""
+    world.reset_world()
+    for S in shard:
+        for q in PREFIX_SYMS:
+            inner = q + S
+            for warm in (False, True):
+                if warm:
+                    real(inner)
+                for pfx in PREFIX_SYMS:
+                    s2 = pfx + inner
+                    exp, _t = expected_units(s2)
+                    ctx.count("evaluations")
+                    if exp:
+                        ctx.count("double_prefix_string_has_a_legitimate_reading")
+                        continue
+                    got = real(s2)
+                    ctx.outcome(("double", got[0], warm))
+                    ctx.decided(("double", s2, warm))
+                    if got[0] == "ok":
+                        ctx.violation(f"C14|nonprefixable|sym={S}|warm={int(warm)}|mode=prefix-accepted-on-prefixed-unit", {"part": "double", "sym": S, "string": s2}, "UnitParseError", got)
+
+
 def run(ctx):
     harness.pmap(ctx, part_order, [[S] for S in sorted(PREFIXABLE)])
     cands = sorted(collision_candidates())
@@ -447,6 +475,7 @@ def run(ctx):
     attrs = sorted(k for k, v in vars(usym).items() if not k.startswith("_") and isinstance(v, Unit))
     harness.pmap(ctx, part_attrs, chunks(attrs, 600))
     part_unicode(ctx, UNICODE_PAIRS)
+    harness.pmap(ctx, part_double, [[S] for S in DOUBLE_BASES])
     # every exposed name must be inside the universe (otherwise the reader has no opinion on it)
     missing = sorted(set(exposed_names()) - set(uni))
     for m in missing:
@@ -462,6 +491,7 @@ def run(ctx):
                 "exposed_names": len(exposed_names()),
                 "attributes": len(attrs),
                 "unicode_pairs": len(UNICODE_PAIRS),
+                "double_prefix_strings": len(DOUBLE_BASES) * len(PREFIX_SYMS) ** 2 * 2,
             },
         },
         "assumptions": [
@@ -483,4 +513,6 @@ def replay(case):
         part_attrs(ctx, [case["name"]])
     elif case["part"] == "unicode":
         part_unicode(ctx, [tuple(case["pair"])])
+    elif case["part"] == "double":
+        part_double(ctx, [case["sym"]])
     return list(ctx.violations.items())
